@@ -3,6 +3,9 @@
 //! in situ), and the effects of conforming deliveries (C05, C11).
 
 use super::i_exec::*;
+
+/// pseudo holder for credits to addresses the simulator does not own
+pub const UNTRACKED: usize = 99;
 use super::i_ops::DSTS;
 use super::i_types::*;
 use crate::abi::{enc_deploy, enc_hub, enc_transfer, w, AHub, AMsg, Word};
@@ -251,7 +254,7 @@ impl<'a> IExec<'a> {
             reasons.push("source-address-not-hub-address");
         }
         enum Eff {
-            Give { t: usize, native: bool, id: [u8; 32], to: usize, amount: i128, data: Vec<u8>, src: Vec<u8>, origin: String },
+            Give { t: usize, native: bool, id: [u8; 32], to: Option<usize>, amount: i128, data: Vec<u8>, src: Vec<u8>, origin: String },
             Deploy { id: [u8; 32], name: String, symbol: String, decimals: u8, minter: Option<usize>, origin: String },
         }
         let mut eff: Option<Eff> = None;
@@ -302,8 +305,11 @@ impl<'a> IExec<'a> {
                                     if to == H_ITS || to == H_GAS {
                                         either = true;
                                     }
-                                    eff = Some(Eff::Give { t, native, id: *id, to, amount: a, data: data.clone(), src: src.clone(), origin: h.chain.clone() });
+                                } else if !data.is_empty() {
+                                    // data for an address that is no application
+                                    either = true;
                                 }
+                                eff = Some(Eff::Give { t, native, id: *id, to, amount: a, data: data.clone(), src: src.clone(), origin: h.chain.clone() });
                             }
                         }
                     }
@@ -389,18 +395,30 @@ impl<'a> IExec<'a> {
                     self.add_bal(t, H_ITS, -amount);
                     self.toks[t].released = self.toks[t].released.wrapping_add(amount);
                 }
-                self.add_bal(t, to, amount);
-                let exp = vec![Ev {
-                    contract: addr_bytes(&its),
-                    topics: vec![sym("interchain_transfer_received"), sstr(&origin), sbytes(&id), sbytes(&src), saddr(&self.h[to]), si128(amount)],
-                    data: svec(vec![if data.is_empty() { ScVal::Void } else { sbytes(&data) }]),
-                }];
-                if !ctx.check(from_its == exp, &["C05"], "inbound/wrong-received-event", || format!("{:?}", from_its)) {
-                    return;
-                }
-                if !data.is_empty() {
-                    self.m.app_count += 1;
-                    ctx.count("probe.inbound_with_data_reached_app");
+                match to {
+                    Some(to) => {
+                        self.add_bal(t, to, amount);
+                        let exp = vec![Ev {
+                            contract: addr_bytes(&its),
+                            topics: vec![sym("interchain_transfer_received"), sstr(&origin), sbytes(&id), sbytes(&src), saddr(&self.h[to]), si128(amount)],
+                            data: svec(vec![if data.is_empty() { ScVal::Void } else { sbytes(&data) }]),
+                        }];
+                        if !ctx.check(from_its == exp, &["C05"], "inbound/wrong-received-event", || format!("{:?}", from_its)) {
+                            return;
+                        }
+                        if !data.is_empty() {
+                            self.m.app_count += 1;
+                            ctx.count("probe.inbound_with_data_reached_app");
+                        }
+                    }
+                    None => {
+                        // credited to a well-formed address outside the simulator's principals
+                        // (a corrupted recipient): tracked under a pseudo holder so that the
+                        // supply equation still balances
+                        ctx.count("probe.inbound_to_untracked_address");
+                        let e = self.toks[t].bal.entry(UNTRACKED).or_insert(0);
+                        *e = e.wrapping_add(amount);
+                    }
                 }
             }
             Some(Eff::Deploy { id, name, symbol, decimals, minter, origin: _ }) => {
